@@ -10,17 +10,21 @@ Module BinS.
   (** ** induction through the nested list *)
   Section BvalInd.
     Variable P : bval -> Prop.
-    Hypothesis Hleaf : forall h k p, P (BLeaf h k p).
-    Hypothesis Hbox : forall h k d, Forall P d -> P (BBox h k d).
+    Definition okP (k : option bval) : Prop := match k with None => True | Some kv => P kv end.
+    Hypothesis Hleaf : forall h k p, okP k -> P (BLeaf h k p).
+    Hypothesis Hbox : forall h k d, okP k -> Forall P d -> P (BBox h k d).
     Fixpoint bval_ind' (v : bval) : P v :=
       match v with
-      | BLeaf h k p => Hleaf h k p
-      | BBox h k d => Hbox h k d ((fix go (l : list bval) : Forall P l :=
+      | BLeaf h k p => Hleaf h k p (match k return okP k with None => I | Some kv => bval_ind' kv end)
+      | BBox h k d => Hbox h k d (match k return okP k with None => I | Some kv => bval_ind' kv end)
+          ((fix go (l : list bval) : Forall P l :=
           match l with [] => Forall_nil P | x :: t => Forall_cons x (bval_ind' x) (go t) end) d)
       end.
   End BvalInd.
 
-  (** ** the values of the theorem: no map keys; header and payload within the format's limits *)
+  (** ** the values of the theorem: header, map keys and payload within the format's limits *)
+  Definition shape_of (v : bval) : list Z := match v with BLeaf h _ _ | BBox h _ _ => shape h end.
+  Definition rc_shape (sh : list Z) : Z := match sh with [] => 1 | d :: _ => d end.
   Definition wf_hdr (h : hdr) : Prop :=
     0 <= flags h <= 15 /\ (exists cps, Utf8.un_utf8 (label h) = Some cps) /\
     Z.of_nat (length (label h)) < 2 ^ 32 /\ (length (shape h) <= 255)%nat /\
@@ -34,15 +38,20 @@ Module BinS.
     end.
   Fixpoint wf (v : bval) : Prop :=
     match v with
-    | BLeaf h k p => k = None /\ wf_hdr h /\ wf_leaf (zprod (shape h)) p
-    | BBox h k d => k = None /\ wf_hdr h /\ Z.of_nat (length d) = zprod (shape h) /\
+    | BLeaf h k p =>
+        (* map keys: a well-formed value with as many rows as the array (`map` checks it) *)
+        match k with None => True | Some kv => wf kv /\ row_count kv = rc_shape (shape h) end /\
+        wf_hdr h /\ wf_leaf (zprod (shape h)) p
+    | BBox h k d =>
+        match k with None => True | Some kv => wf kv /\ row_count kv = rc_shape (shape h) end /\
+        wf_hdr h /\ Z.of_nat (length d) = zprod (shape h) /\
         (fix all (l : list bval) : Prop := match l with [] => True | x :: t => wf x /\ all t end) d
     end.
-  (** nesting below the value: 0 for leaves and empty boxes *)
+  (** nesting below the value (box elements and map keys count one level): 0 for plain leaves and empty boxes *)
   Fixpoint height (v : bval) : nat :=
     match v with
-    | BLeaf _ _ _ => O
-    | BBox _ _ d => (fix hl (l : list bval) : nat := match l with [] => O | x :: t => Nat.max (S (height x)) (hl t) end) d
+    | BLeaf _ k _ => match k with None => O | Some kv => S (height kv) end
+    | BBox _ k d => Nat.max (match k with None => O | Some kv => S (height kv) end) ((fix hl (l : list bval) : nat := match l with [] => O | x :: t => Nat.max (S (height x)) (hl t) end) d)
     end.
 
   Section WithOps.
@@ -62,8 +71,19 @@ Module BinS.
       end.
     Fixpoint bmatch (v v' : bval) : Prop :=
       match v, v' with
-      | BLeaf h _ p, BLeaf h' k' p' => k' = None /\ hmatch h h' /\ pmatch p p'
-      | BBox h _ d, BBox h' k' d' => k' = None /\ hmatch h h' /\
+      | BLeaf h k p, BLeaf h' k' p' =>
+          (* the decoded keys are what `map` makes (norm_keys) of a value that matches the keys *)
+          match k, k' with
+          | None, None => True
+          | Some a, Some b => exists b0, b = norm_keys ops b0 /\ bmatch a b0
+          | _, _ => False
+          end /\ hmatch h h' /\ pmatch p p'
+      | BBox h k d, BBox h' k' d' =>
+          match k, k' with
+          | None, None => True
+          | Some a, Some b => exists b0, b = norm_keys ops b0 /\ bmatch a b0
+          | _, _ => False
+          end /\ hmatch h h' /\
           (fix all2 (l l' : list bval) : Prop :=
              match l, l' with
              | [], [] => True
@@ -115,31 +135,42 @@ Module BinS.
       rewrite zprod_zero by assumption. destruct (Z.ltb_spec (2 ^ 63) (nz_prod sh)); [lia | reflexivity].
     Qed.
 
-    (** the bytes write_ty_meta produces for a value without map keys *)
-    Definition meta_bytes (code : Z) (h : hdr) : list Z :=
-      if has_meta h None
-      then [code + 128; flags h] ++ le 4 (Z.of_nat (length (label h)) mod 2 ^ 32) ++ label h ++ [0]
+    (** the bytes write_ty_meta produces; [kb] = the encoding of the map keys, if any *)
+    Definition meta_bytes (code : Z) (h : hdr) (k : option bval) (kb : option (list Z)) : list Z :=
+      if has_meta h k
+      then [code + 128; flags h] ++ le 4 (Z.of_nat (length (label h)) mod 2 ^ 32) ++ label h
+           ++ match kb with Some b => 1 :: b | None => [0] end
       else [code].
-    Lemma write_meta_none : forall code h, write_meta code h None None = Some (meta_bytes code h).
+    Lemma write_meta_none : forall code h, write_meta code h None None = Some (meta_bytes code h None None).
     Proof. intros. unfold write_meta, meta_bytes. destruct (has_meta h None); reflexivity. Qed.
-    Lemma meta_bytes_nonempty : forall code h, (1 <= length (meta_bytes code h))%nat.
-    Proof. intros. unfold meta_bytes. destruct (has_meta h None); cbn [app length]; lia. Qed.
+    Lemma write_meta_some : forall code h kv b, write_meta code h (Some kv) (Some b) = Some (meta_bytes code h (Some kv) (Some b)).
+    Proof. intros. unfold write_meta, meta_bytes. destruct (has_meta h (Some kv)); reflexivity. Qed.
+    Lemma meta_bytes_nonempty : forall code h k kb, (1 <= length (meta_bytes code h k kb))%nat.
+    Proof. intros. unfold meta_bytes. destruct (has_meta h k); cbn [app length]; lia. Qed.
+    Lemma has_meta_some : forall h kv, has_meta h (Some kv) = true.
+    Proof. intros. unfold has_meta. rewrite andb_false_r. apply orb_true_r. Qed.
 
     Definition valid_code (code : Z) : bool :=
       orb (orb (code <=? 9) (code =? 16)) (orb (code =? 32) (code =? 48)).
 
-    Definition dec_hdr (h : hdr) : hdr :=
-      {| alloc := has_meta h None; flags := flags h; label := label h; shape := shape h |}.
+    Definition dec_hdr (h : hdr) (k : option bval) : hdr :=
+      {| alloc := has_meta h k; flags := flags h; label := label h; shape := shape h |}.
 
-    (** type byte, metadata and shape are read back; what remains is the payload parser *)
-    Lemma parse_header : forall rec code h tail, wf_hdr h -> 0 <= code < 128 -> valid_code code = true ->
-      parse_value ops rec (meta_bytes code h ++ write_shape (shape h) ++ tail) =
-      obind (parse_payload ops rec code (dec_hdr h) (zprod (shape h)) tail)
-            (fun '(v, rest) => finish v (dec_hdr h) None rest).
+    (** type byte, metadata (with the map keys, read by the recursive call [rec]) and shape are read
+        back; what remains is the payload parser.  [k'] = the keys the decoder installs *)
+    Lemma parse_header : forall rec code h k kb k' tail, wf_hdr h -> 0 <= code < 128 -> valid_code code = true ->
+      match kb with
+      | None => k = None /\ k' = None
+      | Some b => k <> None /\ exists k0, rec (b ++ write_shape (shape h) ++ tail) = Some (k0, write_shape (shape h) ++ tail)
+                                          /\ k' = Some (norm_keys ops k0)
+      end ->
+      parse_value ops rec (meta_bytes code h k kb ++ write_shape (shape h) ++ tail) =
+      obind (parse_payload ops rec code (dec_hdr h k) (zprod (shape h)) tail)
+            (fun '(v, rest) => finish v (dec_hdr h k) k' rest).
     Proof.
-      intros rec code h tail (Hfl & (cps & Hl) & Hll & Hr & Hd & Hnz) Hc Hv.
+      intros rec code h k kb k' tail (Hfl & (cps & Hl) & Hll & Hr & Hd & Hnz) Hc Hv Hk.
       pose proof (count_of_ok (shape h) Hnz) as Hco.
-      unfold meta_bytes, dec_hdr. destruct (has_meta h None) eqn:Hm.
+      unfold meta_bytes, dec_hdr. destruct (has_meta h k) eqn:Hm.
       - cbn [app parse_value].
         replace (128 <=? code + 128) with true by (symmetry; apply Z.leb_le; lia).
         assert (Em : (code + 128) mod 128 = code).
@@ -151,14 +182,19 @@ Module BinS.
         rewrite <- app_assoc.
         rewrite <- (le_length 4 (Z.of_nat (length (label h)) mod 2 ^ 32)) at 1. rewrite take_app. cbn [obind].
         rewrite le_horner by (change (2 ^ (8 * Z.of_nat 4)) with (2 ^ 32); apply Z.mod_pos_bound; reflexivity).
-        rewrite Z.mod_small by lia. rewrite <- app_assoc. rewrite takeZ_app. cbn [obind].
-        rewrite Hl. cbn [app]. cbn [Z.eqb obind].
-        rewrite parse_shape_ok by assumption. cbn [obind shape]. rewrite Hco. reflexivity.
-      - cbn [app parse_value].
+        rewrite Z.mod_small by lia. rewrite <- !app_assoc. rewrite takeZ_app. cbn [obind].
+        rewrite Hl. destruct kb as [b|].
+        + destruct Hk as (_ & k0 & Ek & ->). cbn [app]. cbn [Z.eqb]. rewrite Ek. cbn [obind].
+          rewrite parse_shape_ok by assumption. cbn [obind shape]. rewrite Hco. reflexivity.
+        + destruct Hk as (_ & ->). cbn [app]. cbn [Z.eqb obind].
+          rewrite parse_shape_ok by assumption. cbn [obind shape]. rewrite Hco. reflexivity.
+      - (* no metadata: no keys, and the header fields are the defaults *)
+        assert (k = None) as -> by (destruct k; [rewrite has_meta_some in Hm; discriminate | reflexivity]).
+        destruct kb as [b|]; [destruct Hk as [Hk _]; congruence|]. destruct Hk as (_ & ->).
+        cbn [app parse_value].
         replace (128 <=? code) with false by (symmetry; apply Z.leb_gt; lia).
         rewrite Z.mod_small by lia. fold (valid_code code). rewrite Hv. cbn [negb parse_meta obind].
         rewrite parse_shape_ok by assumption. cbn [obind shape]. rewrite Hco. cbn [obind].
-        (* without metadata the header fields are the defaults *)
         unfold has_meta in Hm. apply orb_false_iff in Hm. destruct Hm as [Ha Hm]. apply negb_false_iff in Hm.
         apply andb_true_iff in Hm. destruct Hm as [Hm _]. apply andb_true_iff in Hm. destruct Hm as [Hf0 Hl0].
         apply Z.eqb_eq in Hf0. destruct (label h) eqn:El; [|discriminate]. rewrite Hf0. reflexivity.
@@ -300,53 +336,120 @@ Module BinS.
         rewrite Et'. reflexivity.
     Qed.
 
-    Lemma hmatch_dec : forall h, hmatch h (dec_hdr h).
+    Lemma hmatch_dec : forall h k, hmatch h (dec_hdr h k).
     Proof. intros. unfold hmatch, dec_hdr. cbn. repeat split; reflexivity. Qed.
+
+    (** ** map keys *)
+    Lemma row_count_shape : forall v, row_count v = rc_shape (shape_of v).
+    Proof. destruct v; reflexivity. Qed.
+    Lemma bmatch_shape : forall v v', bmatch v v' -> shape_of v' = shape_of v.
+    Proof.
+      destruct v, v'; cbn [bmatch shape_of]; intros H; try contradiction;
+        destruct H as (_ & (_ & _ & Hs) & _); exact Hs.
+    Qed.
+    Lemma row_count_norm : forall k, row_count (norm_keys ops k) = row_count k.
+    Proof.
+      destruct k as [h ks p|h ks l]; [|reflexivity]. destruct p; try reflexivity.
+      unfold norm_keys. destruct (shape h) eqn:E; [reflexivity|]. destruct (z =? 0); [reflexivity|].
+      unfold row_count. cbn [shape]. rewrite E. reflexivity.
+    Qed.
+    Lemma write_meta_ok : forall code h k kb,
+      match k with Some _ => kb <> None | None => kb = None end ->
+      write_meta code h k kb = Some (meta_bytes code h k kb).
+    Proof.
+      intros code h k kb H. destruct k as [kv|]; [destruct kb as [b|]; [apply write_meta_some | congruence] | subst; apply write_meta_none].
+    Qed.
+
+    Definition kheight (k : option bval) : nat := match k with None => O | Some kv => S (height kv) end.
+    Definition kmatch (k k' : option bval) : Prop :=
+      match k, k' with
+      | None, None => True
+      | Some a, Some b => exists b0, b = norm_keys ops b0 /\ bmatch a b0
+      | _, _ => False
+      end.
+
+    (** the keys are encoded one level deeper, and read back by the recursive call as keys that match *)
+    Lemma keys_part : forall d k sh, okP RT k ->
+      match k with None => True | Some kv => wf kv /\ row_count kv = rc_shape sh end ->
+      (d + kheight k <= MAX_DEPTH)%nat ->
+      exists kb, match k with Some kv => to_binary ops (S d) kv | None => None end = kb /\
+        match k with Some _ => kb <> None | None => kb = None end /\
+        forall T, exists k',
+          match kb with
+          | None => k = None /\ k' = None
+          | Some b => k <> None /\ exists k0, from_binary ops (MAX_DEPTH - d) (b ++ T) = Some (k0, T)
+                                              /\ k' = Some (norm_keys ops k0)
+          end /\ kmatch k k' /\ match k' with None => True | Some kk => row_count kk = rc_shape sh end.
+    Proof.
+      intros d k sh HRT Hwf Hd. destruct k as [kv|]; cbn [okP kheight] in *.
+      - destruct Hwf as [Hwk Hrc]. destruct (HRT (S d) Hwk ltac:(lia)) as (bs & E & _ & D).
+        exists (Some bs). split; [assumption|]. split; [discriminate|].
+        intros T. destruct (D T) as (k0 & E0 & M0). exists (Some (norm_keys ops k0)).
+        split; [split; [discriminate|]; exists k0; split; [|reflexivity];
+                replace (MAX_DEPTH - d)%nat with (S (MAX_DEPTH - S d)) by (unfold MAX_DEPTH in *; lia); assumption|].
+        split; [exists k0; split; [reflexivity | assumption]|].
+        rewrite row_count_norm, row_count_shape, (bmatch_shape _ _ M0), <- row_count_shape. assumption.
+      - exists None. split; [reflexivity|]. split; [reflexivity|]. intros T. exists None.
+        split; [split; reflexivity|]. split; exact I.
+    Qed.
+
+    Lemma finish_ok : forall v h k' rest,
+      match k' with None => True | Some kk => row_count kk = row_count v end ->
+      finish v h k' rest = Some (set_keys v h k', rest).
+    Proof. intros v h [kk|] rest H; cbn [finish]; [rewrite H, Z.eqb_refl|]; reflexivity. Qed.
 
     Theorem roundtrip_all : forall v, RT v.
     Proof.
       apply bval_ind'.
       - (* leaves *)
-        intros h k p d Hwf Hd. cbn [wf] in Hwf. destruct Hwf as (-> & Hh & Hp).
-        destruct (parse_leaf (from_binary ops (MAX_DEPTH - d)) (dec_hdr h) (zprod (shape h)) p) with (rest := @nil Z) as (_ & _ & _ & Hv & Hc); [assumption|].
-        cbn [to_binary height] in *.
+        intros h k p Hk d Hwf Hd. cbn [wf] in Hwf. destruct Hwf as (Hwk & Hh & Hp).
+        change (height (BLeaf h k p)) with (kheight k) in Hd.
+        destruct (keys_part d k (shape h) Hk Hwk Hd) as (kb & Ekb & Hcons & Dk).
+        destruct (parse_leaf (from_binary ops (MAX_DEPTH - d)) (dec_hdr h k) (zprod (shape h)) p) with (rest := @nil Z) as (_ & _ & _ & Hv & Hc); [assumption|].
+        cbn [to_binary]. cbv zeta. rewrite Ekb.
         replace (Nat.ltb MAX_DEPTH d) with false by (symmetry; apply Nat.ltb_ge; lia).
         assert (Hr : Nat.ltb 255 (length (shape h)) = false) by (apply Nat.ltb_ge; destruct Hh as (_ & _ & _ & Hr & _ & _); assumption).
         rewrite Hr. destruct (write_leaf ops p) as [code payload] eqn:Ew. cbn [fst snd] in *.
-        rewrite write_meta_none. cbn [obind].
-        eexists. split; [reflexivity|]. split; [rewrite app_length; pose proof (meta_bytes_nonempty code h); lia|].
+        rewrite write_meta_ok by assumption. cbn [obind].
+        eexists. split; [reflexivity|]. split; [rewrite app_length; pose proof (meta_bytes_nonempty code h k kb); lia|].
         intros rest.
-        destruct (parse_leaf (from_binary ops (MAX_DEPTH - d)) (dec_hdr h) (zprod (shape h)) p rest Hp) as (p' & Ep & Mp & _ & _).
+        destruct (parse_leaf (from_binary ops (MAX_DEPTH - d)) (dec_hdr h k) (zprod (shape h)) p rest Hp) as (p' & Ep & Mp & _ & _).
         rewrite Ew in Ep. cbn [fst snd] in Ep.
-        exists (BLeaf (dec_hdr h) None p'). split.
-        + cbn [from_binary]. rewrite <- !app_assoc. rewrite parse_header by assumption.
-          rewrite Ep. reflexivity.
-        + cbn [bmatch]. split; [reflexivity|]. split; [apply hmatch_dec | assumption].
+        destruct (Dk (write_shape (shape h) ++ payload ++ rest)) as (k' & Hk' & Mk & Hrc).
+        exists (BLeaf (dec_hdr h k) k' p'). split.
+        + cbn [from_binary]. rewrite <- !app_assoc. rewrite (parse_header _ code h k kb k') by assumption.
+          rewrite Ep. cbn [obind]. rewrite finish_ok; [reflexivity|].
+          destruct k'; [|exact I]. rewrite Hrc. reflexivity.
+        + cbn [bmatch]. split; [exact Mk|]. split; [apply hmatch_dec | assumption].
       - (* boxes *)
-        intros h k l IH d Hwf Hd. cbn [wf] in Hwf. destruct Hwf as (-> & Hh & Hlen & Hall).
+        intros h k l Hk IH d Hwf Hd. cbn [wf] in Hwf. destruct Hwf as (Hwk & Hh & Hlen & Hall).
         change ((fix all (l : list bval) : Prop := match l with [] => True | x :: t => wf x /\ all t end) l) with (wf_list l) in Hall.
-        change (height (BBox h None l)) with (height_list l) in Hd.
-        destruct (box_elems d l IH Hall Hd) as (body & Eb & Lb & Db).
-        change (to_binary ops d (BBox h None l)) with
+        change (height (BBox h k l)) with (Nat.max (kheight k) (height_list l)) in Hd.
+        destruct (keys_part d k (shape h) Hk Hwk ltac:(lia)) as (kb & Ekb & Hcons & Dk).
+        destruct (box_elems d l IH Hall ltac:(lia)) as (body & Eb & Lb & Db).
+        change (to_binary ops d (BBox h k l)) with
           (if Nat.ltb MAX_DEPTH d then None else
            if Nat.ltb 255 (length (shape h)) then None else
-           obind (write_meta BOX h None None) (fun m =>
+           obind (write_meta BOX h k (match k with Some kv => to_binary ops (S d) kv | None => None end)) (fun m =>
            obind (enc_list (to_binary ops (S d)) l) (fun body => Some (m ++ write_shape (shape h) ++ body)))).
+        rewrite Ekb.
         replace (Nat.ltb MAX_DEPTH d) with false by (symmetry; apply Nat.ltb_ge; lia).
         assert (Hr : Nat.ltb 255 (length (shape h)) = false) by (apply Nat.ltb_ge; destruct Hh as (_ & _ & _ & Hr & _ & _); assumption).
-        rewrite Hr, write_meta_none, Eb. cbn [obind].
-        eexists. split; [reflexivity|]. split; [rewrite app_length; pose proof (meta_bytes_nonempty BOX h); lia|].
+        rewrite Hr, write_meta_ok, Eb by assumption. cbn [obind].
+        eexists. split; [reflexivity|]. split; [rewrite app_length; pose proof (meta_bytes_nonempty BOX h k kb); lia|].
         intros rest. destruct (Db rest) as (l' & El & Ml).
-        exists (BBox (dec_hdr h) None l'). split.
+        destruct (Dk (write_shape (shape h) ++ body ++ rest)) as (k' & Hk' & Mk & Hrc).
+        exists (BBox (dec_hdr h k) k' l'). split.
         + cbn [from_binary]. rewrite <- !app_assoc.
-          rewrite parse_header by (try assumption; unfold BOX; try lia; reflexivity).
+          rewrite (parse_header _ BOX h k kb k') by (try assumption; unfold BOX; try lia; reflexivity).
           unfold parse_payload, BOX. cbn [Z.leb Z.eqb Z.compare Pos.compare Pos.compare_cont Pos.eqb].
           replace (Z.of_nat (length (body ++ rest)) <? zprod (shape h)) with false
             by (symmetry; apply Z.ltb_ge; rewrite <- Hlen, app_length; lia).
-          rewrite <- Hlen, Nat2Z.id, El. reflexivity.
-        + change (bmatch (BBox h None l) (BBox (dec_hdr h) None l')) with
-            (@None bval = None /\ hmatch h (dec_hdr h) /\ bmatch_list l l').
-          split; [reflexivity|]. split; [apply hmatch_dec | assumption].
+          rewrite <- Hlen, Nat2Z.id, El. cbn [obind]. rewrite finish_ok; [reflexivity|].
+          destruct k'; [|exact I]. rewrite Hrc. reflexivity.
+        + change (bmatch (BBox h k l) (BBox (dec_hdr h k) k' l')) with
+            (kmatch k k' /\ hmatch h (dec_hdr h k) /\ bmatch_list l l').
+          split; [exact Mk|]. split; [apply hmatch_dec | assumption].
     Qed.
 
     (** °binary (binary v) matches v *)
